@@ -50,6 +50,18 @@ CHECKS = {
              'run). The floating-point rounding amplification of the geometric case is outside the claim.',
         technique=TECH + ' (QF_UFLRA/QF_NRA) and z3 floating-point theory (QF_FP) on the same trace',
         design='3/C13'),
+    'C14': dict(
+        text='Bounded solver verdict. EpsAlg (real class on symbolic terms): value after term m equals the independently built '
+             'Hankel-determinant Shanks entry, and a limit plus k geometric transients is recovered from 2k+1 terms for all '
+             'parameters (k<=2, 3 thorough). Dea (real class): one __call__ from an arbitrary symbolic table for every control '
+             'state (n, nres class), all comparison outcomes explored with z3 deciding feasibility; per path index safety, no '
+             'exception, abserr>=5*eps*|result|; exhaustive search of the finite control graph gives "any length" for limexp in '
+             '{3,5,7} (odd <=21 thorough); first terms agree with dea3.',
+        note='Trusted: z3; table contents arbitrary at every call (over-approximation of histories, sound for absence of '
+             'violations); reciprocal of symbolic differences uninterpreted; abstract counterexamples are reported only when a '
+             'sequence family realises them on the real class. Known finding (table overrun after convergence) listed.',
+        technique=TECH + ' (polynomial identities; QF_UFLRA path feasibility) + explicit search of the resulting finite control graph',
+        design='3/C14'),
     'C15': dict(
         text='Bounded solver verdict on the real Fornberg recursion: fd_weights_all executed on fully symbolic nodes and x0 '
              '(m<=4) and on concrete rational node sets with symbolic x0 and a symbolic polynomial (m<=14, six node families): '
